@@ -246,28 +246,43 @@ inductive UrlOutcome
   | unmodelled       -- outside the modelled grammar
 deriving DecidableEq, Repr
 
-/-- `get_adjusted_url(url, addr)` on the URL grammar, with the reason when nothing is adjusted.
-    `unmodelled`: control bytes (urlsplit strips some), blanks / non-ASCII in the network location, userinfo,
-    IPvFuture, IPv4-suffixed IPv6.  Blanks and non-ASCII text in path / query / fragment are modelled. -/
-def urlOutcome (url : Bytes) (a : Addr) : UrlOutcome :=
-  if !(a.v6 ∧ a.scope ≠ 0) then .same .notScoped
-  else if !url.all (fun b => (32 ≤ b && b ≤ 126) || 128 ≤ b) || url.head? == some 32 then .unmodelled
+/-- what `urlsplit` + `.hostname` / the port text give, for the URL grammar -/
+structure UrlParts where
+  scheme : Bytes
+  host : Bytes          -- `data.hostname` (lower-cased before a `%zone`)
+  portTxt : Bytes
+  tail : Bytes          -- path ? query # fragment, verbatim
+  bracketed : Bool
+
+/-- why there are no parts: outside the grammar, or one of the early returns of `get_adjusted_url` -/
+inductive Early | unmodelled | noHost | splitError
+deriving DecidableEq, Repr
+
+def Early.outcome : Early → UrlOutcome
+  | .unmodelled => .unmodelled
+  | .noHost => .same .noHost
+  | .splitError => .same .splitError
+
+/-- `urlsplit(url)` and `_hostinfo`.  `unmodelled`: control bytes (urlsplit strips some), blanks / non-ASCII in
+    the network location, userinfo, IPvFuture.  Blanks and non-ASCII text in path / query / fragment are modelled. -/
+def urlParts (url : Bytes) : Except Early UrlParts :=
+  if !url.all (fun b => (32 ≤ b && b ≤ 126) || 128 ≤ b) || url.head? == some 32 then .error .unmodelled
   else
     -- scheme
     let (scheme, rest) :=
       match splitFirst COLON url with
       | some (s, r) => if !s.isEmpty && isAlpha (s.headD 0) && s.all isSchemeChar then (lower s, r) else ([], url)
       | .none => ([], url)
-    if !(startsWith rest [47, 47]) then .same .noHost          -- no netloc: hostname is None
+    if !(startsWith rest [47, 47]) then .error .noHost          -- no netloc: hostname is None
     else
       let rest2 := rest.drop 2
       let netloc := rest2.takeWhile (fun b => b != 47 && b != 63 && b != 35)
       let tail := rest2.dropWhile (fun b => b != 47 && b != 63 && b != 35)
-      if netloc.contains 64 || !netloc.all (fun b => 33 ≤ b && b ≤ 126) then .unmodelled
+      if netloc.contains 64 || !netloc.all (fun b => 33 ≤ b && b ≤ 126) then .error .unmodelled
       else
         let hasO := netloc.contains 91
         let hasC := netloc.contains 93
-        if hasO != hasC then .same .splitError                  -- ValueError: Invalid IPv6 URL
+        if hasO != hasC then .error .splitError                  -- ValueError: Invalid IPv6 URL
         else
           -- hostname / port text (`_hostinfo`)
           let (hostRaw, portTxt, bracketed) :=
@@ -280,38 +295,51 @@ def urlOutcome (url : Bytes) (a : Addr) : UrlOutcome :=
               match splitFirst COLON netloc with
               | some (h, p) => (h, p, false)
               | .none => (netloc, [], false)
-          if bracketed ∧ hostRaw.headD 0 = 118 then .unmodelled     -- IPvFuture
+          if bracketed ∧ hostRaw.headD 0 = 118 then .error .unmodelled     -- IPvFuture
           else
             -- hostname: lower-cased before `%`
             let host := match splitFirst 37 hostRaw with
               | some (h, z) => lower h ++ 37 :: z
               | .none => lower hostRaw
-            let kind := ipKind host
-            -- `_check_bracketed_host` inside urlsplit
-            if bracketed ∧ (kind = .invalid ∨ kind = .v4LinkLocal ∨ (parseIPv4 host).isSome) then .same .splitError
-            else if bracketed ∧ kind = .unmodelled then .unmodelled
-            else if host.isEmpty then .same .noHost              -- hostname None
-            else match kind with
-              | .unmodelled => .unmodelled
-              | .invalid => .same .notIp
-              | .other => .same .notLinkLocal
-              | .v4LinkLocal | .v6LinkLocal =>
-                -- `.port`
-                if !portTxt.isEmpty ∧ (!portTxt.all isDigit ∨ portTxt.length > 4300 ∨ decVal portTxt > 65535) then .same .portError
-                else
-                  let port := decVal portTxt
-                  let netloc' := 91 :: host ++ 37 :: natDec a.scope ++ [93]
-                    ++ (if port ≠ 0 then COLON :: natDec port else [])
-                  -- urlunsplit
-                  let (pq, frag) := match splitFirst 35 tail with
-                    | some (x, f) => (x, f) | .none => (tail, [])
-                  let (path, query) := match splitFirst 63 pq with
-                    | some (x, q) => (x, q) | .none => (pq, [])
-                  let u := [47, 47] ++ netloc' ++ path
-                  let u := if scheme.isEmpty then u else scheme ++ COLON :: u
-                  let u := if query.isEmpty then u else u ++ 63 :: query
-                  let u := if frag.isEmpty then u else u ++ 35 :: frag
-                  .adjusted u
+            .ok { scheme := scheme, host := host, portTxt := portTxt, tail := tail, bracketed := bracketed }
+
+/-- the rest of `get_adjusted_url` once scheme, host, port text and tail are known
+    (`unmodelled`: an IPv4-suffixed IPv6 host) -/
+def adjustParts (a : Addr) (p : UrlParts) : UrlOutcome :=
+  let kind := ipKind p.host
+  -- `_check_bracketed_host` inside urlsplit
+  if p.bracketed ∧ (kind = .invalid ∨ kind = .v4LinkLocal ∨ (parseIPv4 p.host).isSome) then .same .splitError
+  else if p.bracketed ∧ kind = .unmodelled then .unmodelled
+  else if p.host.isEmpty then .same .noHost              -- hostname None
+  else match kind with
+    | .unmodelled => .unmodelled
+    | .invalid => .same .notIp
+    | .other => .same .notLinkLocal
+    | .v4LinkLocal => .same .notLinkLocal               -- `address.version != 6`: only IPv6 link-local addresses are scoped
+    | .v6LinkLocal =>
+      -- `.port`
+      if !p.portTxt.isEmpty ∧ (!p.portTxt.all isDigit ∨ p.portTxt.length > 4300 ∨ decVal p.portTxt > 65535) then .same .portError
+      else
+        let port := decVal p.portTxt
+        let netloc' := 91 :: p.host ++ 37 :: natDec a.scope ++ [93]
+          ++ (if port ≠ 0 then COLON :: natDec port else [])
+        -- urlunsplit
+        let (pq, frag) := match splitFirst 35 p.tail with
+          | some (x, f) => (x, f) | .none => (p.tail, [])
+        let (path, query) := match splitFirst 63 pq with
+          | some (x, q) => (x, q) | .none => (pq, [])
+        let u := [47, 47] ++ netloc' ++ path
+        let u := if p.scheme.isEmpty then u else p.scheme ++ COLON :: u
+        let u := if query.isEmpty then u else u ++ 63 :: query
+        let u := if frag.isEmpty then u else u ++ 35 :: frag
+        .adjusted u
+
+/-- `get_adjusted_url(url, addr)` on the URL grammar, with the reason when nothing is adjusted -/
+def urlOutcome (url : Bytes) (a : Addr) : UrlOutcome :=
+  if !(a.v6 ∧ a.scope ≠ 0) then .same .notScoped
+  else match urlParts url with
+    | .error e => e.outcome
+    | .ok p => adjustParts a p
 
 /-- `get_adjusted_url(url, addr)` as repaired (any failure to split / read host or port returns
     the URL unchanged); `none` = outside the modelled grammar -/
